@@ -171,3 +171,40 @@ func ruleSpansThroughReader(w *World, r *Report) {
 	r.Expect("inline-phase functions examined", nFns, 8)
 	r.Note("C08-V: %d inline-phase functions, %d direct reads of source spans", nFns, nReads)
 }
+
+// ruleRenderersReadPerSegment (C08-R, also under C10): the same for the render side.
+func ruleRenderersReadPerSegment(w *World, r *Report) {
+	r.Rule("C08-R", "In packages renderer/html and extension, no function slices a []byte parameter (the document source handed to render functions) between positions taken from two different segment values (source[first.Start:last.Stop]). The lines of a node are separate segments because, inside a block quote or list item, the bytes between them are container markers and indentation: written in one piece they leak '> ' into the output — with Unsafe on, multi-line inline raw HTML then differs from its safe rendering by more than the placeholder.")
+	n := 0
+	for _, fn := range w.Funcs {
+		pk := w.PkgOf(fn)
+		if pk != modPath+"/renderer/html" && pk != modPath+"/extension" {
+			continue
+		}
+		for _, b := range fn.Blocks {
+			for _, ins := range b.Instrs {
+				x, ok := ins.(*ssa.Slice)
+				if !ok || x.Low == nil || x.High == nil || !isByteSlice(x.X.Type()) {
+					continue
+				}
+				if _, isParam := x.X.(*ssa.Parameter); !isParam {
+					continue
+				}
+				lo, hi := posBases(x.Low), posBases(x.High)
+				if len(lo) == 0 || len(hi) == 0 {
+					continue
+				}
+				n++
+				key := fmt.Sprintf("%s: %s[%s:%s]", w.FnKey(fn), stableName(x.X), stableName(x.Low), stableName(x.High))
+				if disjointBases(lo, hi) {
+					r.Bad(key, w.InstrPos(x), "the source is sliced between positions of two different segments: between the lines of a node inside a container it holds the container's markers, which are not content")
+				} else {
+					r.OK(key, w.InstrPos(x), "both bounds derive from one segment")
+				}
+			}
+		}
+	}
+	if n == 0 {
+		r.OK("no render-side slice of the source between segment positions", "", "nothing to judge: node text is read through Segment.Value / Lines().At(i)")
+	}
+}
